@@ -77,6 +77,10 @@ def stepApiMgr (op : String) (args : List String) (rec : Option (List Nat)) : Op
     | some u => some do predDrop u; return .unit
     | none => some (M.throw .other)
   | "pred_clear", [] => some do predClear; return .unit
+  | "pred_put", [i, v, w, u] =>
+    match parseInt? i, parseInt? v, parseInt? w, parseNat? u with
+    | some i, some v, some w, some u => some do predPut [i, v, w] u; return .unit
+    | _, _, _, _ => some (M.throw .other)
   | "var_levels", [] => some fun m => (.ok (.str (showVarLevels (varLevels m.tbl))), m)
   | "vars", [] => some fun m => (.ok (.str (showVarLevels (varLevels m.tbl))), m)
   | "ordering", [] => some fun m => (orderingView.map fun _ => Res.unit, m)
@@ -236,6 +240,11 @@ def stepApiMdd (op : String) (args : List String) : Option (MM Res) :=
     | some u => some fun m => ((mToExpr m.tbl u).map fun e => .str e.show, m)
     | none => some (MM.throw .other)
   | "mdd_iter", [] => some fun m => (.ok (.nats (mIterNodes m.tbl)), m)
+  | "mdd_dump_kind", [fname] => some fun m =>
+    -- `g = _to_dot(self)` runs first: its `KeyError` wins
+    (match mToDot m.tbl with
+     | .error e => .error e
+     | .ok _ => (mDumpKind m.tbl fname).map Res.str, m)
   | "mdd_to_dot", [] => some fun m =>
     ((mToDot m.tbl).map fun (ns, es) =>
       .str ("N=" ++ joinWith "," ((sortBy (fun (a b : Nat × Nat × String) => a.1 ≤ b.1) ns).map
